@@ -20,7 +20,24 @@
    role (it restricts native Cancel ops only).  The scenario is therefore executed on the real code by the harness
    (memstream_common.observe_skip_prediction_averted) and recorded in evidence/C12.json under
    coverage.observations.skip_prediction_averted; it is not counted as a violation (the property quantifies over
-   cancellation, not over a third party toggling another task's shield inside one cycle). *)
+   cancellation, not over a third party toggling another task's shield inside one cycle).
+   The contract of has_pending_cancellation() - what is proved and what is checked.  In the model `has_pending` is not a
+   free oracle: it is the transcription `mustc || waiter-future-cancelled || scopec`, where `scopec` abstracts
+   CancelScope._effectively_cancelled for the ONE scope the model knows (entered directly around the call and cancelled
+   by op ScopeCancel, which delivers Task.cancel() at once).  On that abstraction the contract "true only for a task
+   whose wait is going to end with a cancellation" is a theorem (C12_skip_means_future_cancelled,
+   C12_skipped_receiver_is_cancelled).  The real predicate reads the task's whole cancel-scope chain (shields,
+   cancelled / expired parent scopes); a scope-chain abstraction inside the P machine was judged not cheap (it changes
+   the state, the ops and every invariant lemma), so for real scope structures the contract is CHECKED, on every run,
+   by the combined scope+stream family of the harness (memstream_common.SHAPES: calls made inside a shield, inside a
+   shield under a cancelled / expired-deadline / live outer scope, nested two deep, plain inside plain; the virtual
+   clock is moved past deadlines with the timer callback run or not; outer scopes are cancelled while the task waits):
+   after every step has_pending_cancellation() of every task inside a blocking call must equal "a cancellation was
+   requested on the task, or its scope is effectively cancelled" as computed by the harness from the structure it built
+   (a shield between the task and a cancelled / expired scope means NOT cancelled), and a receiver for which this is
+   false is LIVE: it must be served in FIFO order and must never be popped from the queue without an item.  For the
+   stream model such structures are plain Send / Recv (codec codes 20..39) and the clock / timer / outer-cancel
+   activities are no-ops (codes 10, 11, 14): that they are invisible to the stream is part of the correspondence. *)
 From AV Require Import Base MemStream MemStreamProofs MemStreamThms.
 From Coq Require Import Permutation.
 
